@@ -25,8 +25,8 @@ KB = 1.380649e-23
 NA = 6.02214076e23
 LEN = {'nanometer': 1e-9, 'nm': 1e-9, 'angstrom': 1e-10, 'micrometer': 1e-6}          # metres
 EN = {'kilojoule/mole': (1e3, True), 'kcal/mol': (4184.0, True), 'joule': (1.0, False), 'eV': (1.602176634e-19, False)}
-DCS = [0.5, 1.0, 1.5, 3.4]
-ECS = [0.6, 1.0, 2.48]
+DCS = [0.5, 1.0, 1.5, 3.4, 1.2345649]          # the last ones carry 8 significant digits on purpose
+ECS = [0.6, 1.0, 2.48, 2.4789573]
 METHODS = ['toKelvin', 'toCelcius', 'toInvAngstrom', 'toInvNanometer', 'toConcentration', 'toVolumeFraction']
 ARGS = {'scalar': 0.75, 'arr1': [1.25], 'arr3': [0.5, 1.0, 2.5]}
 UNITS = {'toKelvin': 'kelvin', 'toCelcius': 'degree_Celsius', 'toInvAngstrom': '1 / angstrom', 'toInvNanometer': '1 / nanometer',
@@ -60,17 +60,31 @@ def make(dc, dcu, ec, ecu):
     return pyPRISM.util.UnitConverter(dc=dc, dc_unit=dcu, ec=ec, ec_unit=ecu)
 
 
+class InputModified(Exception):
+    pass
+
+
 def call(uc, method, arg):
     a = np.array(arg, dtype=float) if isinstance(arg, list) else arg
+    snap = np.array(a, dtype=float, copy=True)
     if method == 'toVolumeFraction':
-        return getattr(uc, method)(a, DIAM)
-    return getattr(uc, method)(a)
+        q = getattr(uc, method)(a, DIAM)
+    else:
+        q = getattr(uc, method)(a)
+    if not np.array_equal(np.asarray(a, dtype=float), snap):
+        raise InputModified('%s overwrote the caller\'s argument array: %r -> %r' % (method, snap.tolist(), np.asarray(a).tolist()))
+    return q
 
 
 def check_call(rec, case, uc, method, argname, arg, dc, dcu, ec, ecu, label=''):
     rec.trans()
     try:
         q = call(uc, method, arg)
+    except InputModified as e:
+        rec.fail(case, str(e) + label, {'method': method, 'kind': 'input_modified'},
+                 repro="import numpy as np, pyPRISM\nuc = pyPRISM.util.UnitConverter(dc=%r, dc_unit=%r, ec=%r, ec_unit=%r)\nx = np.array([0.5, 1.0, 2.5]); uc.%s(x); print(x)"
+                       % (dc, dcu, ec, ecu, method))
+        return None
     except Exception as e:
         rec.fail(case, '%s(%r)%s raised %s: %s' % (method, arg, label, type(e).__name__, str(e)[:100]),
                  {'method': method, 'kind': 'raises'},
@@ -161,11 +175,33 @@ def case_pairs(rec, c):
         rec.fail(c, 'reading dc raised %s' % type(e).__name__, {'method': 'dc', 'kind': 'raises'})
 
 
+def case_two(rec, c):
+    """Two converters with different characteristic values alive in one process: all four orders of
+    (construct A, construct B, use A, use B); each must answer with its own constants."""
+    A = (c['dc'], c['dc_unit'], c['ec'], c['ec_unit'])
+    B = (c['dc2'], c['dc_unit2'], c['ec2'], c['ec_unit2'])
+    for order in ('ABab', 'ABba', 'AaBb', 'AaBa'):
+        objs = {}
+        rec.state()
+        for step in order:
+            if step in 'AB':
+                objs[step] = make(*(A if step == 'A' else B))
+            else:
+                par = A if step == 'a' else B
+                uc = objs[step.upper()]
+                for method in METHODS:
+                    check_call(rec, dict(c, order=order, method=method), uc, method, 'arr3', ARGS['arr3'], *par,
+                               label=' (converter %s in construction/use order %s)' % (step.upper(), order))
+                    rec.trace()
+
+
 def replay(rec, case):
     with warnings.catch_warnings(), np.errstate(all='ignore'):
         warnings.simplefilter('ignore')
         if case.get('kind') == 'pairs':
             case_pairs(rec, case)
+        elif case.get('kind') == 'two':
+            case_two(rec, case)
         else:
             case_conv(rec, case)
 
@@ -193,6 +229,10 @@ def run(rec, tier, seed):
     pair_units = [('nm', 'kilojoule/mole'), ('angstrom', 'eV')] if tier == 'quick' else list(itertools.product(LEN, EN))
     for dcu, ecu in pair_units:
         cases.append({'kind': 'pairs', 'dc': 1.5, 'dc_unit': dcu, 'ec': 2.48, 'ec_unit': ecu})
+    twos = list(itertools.product(LEN, EN)) if tier == 'thorough' else [('nm', 'kilojoule/mole'), ('angstrom', 'kcal/mol'), ('micrometer', 'eV')]
+    for (dcu, ecu), (dcu2, ecu2) in itertools.product(twos, repeat=2):
+        cases.append({'kind': 'two', 'dc': 1.5, 'dc_unit': dcu, 'ec': 2.48, 'ec_unit': ecu,
+                      'dc2': 3.4, 'dc_unit2': dcu2, 'ec2': 0.6, 'ec_unit2': ecu2})
     chunks = [cases[i::32] for i in range(32)]
     core.pmap(_worker, [c for c in chunks if c], rec)
     rec.note('alphabets', {'dc': dcs, 'dc_unit': list(LEN), 'ec': ecs, 'ec_unit': list(EN), 'methods': METHODS, 'arguments': ARGS,
